@@ -8,3 +8,4 @@ pub mod rig;
 pub mod gen;
 pub mod hist;
 pub mod profiles;
+pub mod clientrig;
